@@ -5,6 +5,8 @@
 // worker loop that the per-property test binaries share.
 package kernel
 
+import "io"
+
 // Rand is a splitmix64 generator.  It is the only source of randomness in the
 // simulator; it is seeded from (VERIF_SEED, run index).
 type Rand struct{ s uint64 }
@@ -50,6 +52,11 @@ type Tape struct {
 	// Out is the tape as consumed in this run (after clamping), i.e. the
 	// canonical form of the input.
 	Out []uint32
+
+	// Sink, if set, receives every value as it is consumed (4 bytes, little
+	// endian, unbuffered), so that the tape of a run that kills the process
+	// survives it.
+	Sink io.Writer
 }
 
 // NewTape returns an exploring tape.
@@ -90,6 +97,11 @@ func (t *Tape) ChooseF(n int, gen func(r *Rand) int) int {
 	}
 
 	t.Out = append(t.Out, uint32(v))
+	if t.Sink != nil {
+		var b [4]byte
+		b[0], b[1], b[2], b[3] = byte(v), byte(v>>8), byte(v>>16), byte(v>>24)
+		_, _ = t.Sink.Write(b[:])
+	}
 
 	return v
 }
